@@ -102,5 +102,59 @@ func c02Scenarios(tier string) []*Scenario {
 			},
 		})
 	}
+	// G2: no epilogue. A pass that starts after the last update is "the first report pass that
+	// starts afterwards": once every pass has completed the reporter's latest value must be the last update.
+	for _, cached := range []bool{true, false} {
+		cached := cached
+		out = append(out, &Scenario{
+			Property: "C02", Name: "G2-pass-started-after-last-update-" + b2s(cached),
+			Body: func(x *Run) {
+				rec := &Recorder{}
+				x.Rec = rec
+				root, _ := tally.VerifNewRootScope(scopeOpts(rec, cached, false), 0, 1)
+				g := root.Tagged(map[string]string{"k": "v"}).Gauge("g")
+				g.Update(1.5)
+				u := rt.GoNamed("upd", func() {
+					g.Update(2.5)
+					rec.Mark("upd-done")
+				})
+				pass := func() {
+					rec.Mark("pass-start")
+					tally.VerifReportOnce(root)
+				}
+				p1 := rt.GoNamed("pass1", pass)
+				p2 := rt.GoNamed("pass2", pass)
+				u.Join()
+				p1.Join()
+				p2.Join()
+			},
+			Check: func(x *Run, o *rt.Outcome) (string, string, string) {
+				done, after := -1, false
+				var last uint64
+				n := 0
+				for i, e := range x.Rec.Log {
+					switch {
+					case e.Kind == "mark" && e.Note == "upd-done":
+						done = i
+					case e.Kind == "mark" && e.Note == "pass-start" && done >= 0:
+						after = true
+					case e.Kind == "gauge":
+						n++
+						last = e.F
+						if e.F != math.Float64bits(1.5) && e.F != math.Float64bits(2.5) {
+							return "invented-value", e.String(), "viol"
+						}
+					}
+				}
+				if n > 2 {
+					return "more-deliveries-than-updates", fmt.Sprintf("%d deliveries for 2 updates", n), "viol"
+				}
+				if after && (n == 0 || last != math.Float64bits(2.5)) {
+					return "pass-after-last-update-left-stale-value", fmt.Sprintf("a report pass started after the last update and every pass has completed, but the reporter's most recent value is %#x (deliveries: %d), the last update was 2.5", last, n), "viol"
+				}
+				return "", "", fmt.Sprint(after, deliveredOutcome(x.Rec.Log))
+			},
+		})
+	}
 	return out
 }
